@@ -137,11 +137,14 @@ def load_translated():
 def filter_descs(quick):
     out = []
     taps = {1: [0.5], 2: [0.5, 0.25], 3: [1.0, -2.0, 3.0], 5: [0.1, 0.2, 0.4, 0.2, 0.1]}
+    # taps that are exactly zero at the end / at the start / inside / everywhere (every delay offset reaches into them)
+    taps.update({"z-end": [1.0, 2.0, 0.0], "z-start": [0.0, 1.0, 2.0], "z-in": [1.0, 0.0, 2.0], "z-all": [0.0, 0.0],
+                 "z-pad8": [0.25, 0.5, 0.25, -0.125, 0.0, 0.0, 0.0, 0.0]})
     for n, h in taps.items():
-        for m0 in range(n):
+        for m0 in range(len(h)):
             for dt in ("int16", "float64"):
                 out.append({"cls": "FirFilter", "h": h, "m0": m0, "dtype": dt})
-    for h, k in (([1, 2, 1], 4), ([3, -1], 2), ([1, 1, 1, 1], 1)):
+    for h, k in (([1, 2, 1], 4), ([3, -1], 2), ([1, 1, 1, 1], 1), ([1, 2, 0], 1), ([0, 0, 3], 2)):
         for m0 in range(len(h)):
             out.append({"cls": "ChickSysCustomFirFilter", "h": h, "m0": m0, "k": k, "dtype": "int16"})
     for B, A in (([0.5, -0.124], [1.0, -0.5488]), ([0.3, 0.2, 0.1], [1.0, -0.5]), ([0.3, 0.2, 0.1], [2.0, -0.5, 0.25]),
@@ -300,7 +303,7 @@ class Check(CheckBase):
     id = "C19"
     level = "model_checking"
     title = "De-emphasis filters give the same output however the signal is split into blocks"
-    rule = ("per filter (FirFilter taps 1,2,3,5 x every delay offset x {int16,float64}; ChickSysCustomFirFilter 3 tap sets x "
+    rule = ("per filter (FirFilter taps 1,2,3,5 and five tap sets with exact zeros at the end / start / inside / everywhere / padding an 8-tap table x every delay offset x {int16,float64}; ChickSysCustomFirFilter 5 tap sets (two with zero taps) x "
             "every delay; IirFilter 5 coefficient sets; the 5 presets) and per signal (all of {-32768,-1,0,1,32767}^n for "
             "n<=4 quick / 5 thorough; ramp, impulse, alternating extremes, DC at the limit, step, of length 8,10 quick / "
             "8,10,12 thorough; length 24 with all splits of <=3 cut points): ALL 2^(n-1) ordered block splits, each followed "
